@@ -155,6 +155,25 @@ def run(ctx) -> None:
             if not (p.outcome is NORMAL or p.outcome[0] == "return"):
                 continue
             sig = {c for c, k, e in net(registry_effects(p.evs))}
+            # what this call must achieve on this path
+            conds = p.conds()
+            new_watch = any(a.endswith(" in self._emitter_for_watch") and not t for a, t in conds.items())
+            required = {
+                "schedule": ({"h", "E", "M", "W"} if new_watch else {"h", "W"}),
+                "add_handler_for_watch": {"h"},
+                "remove_handler_for_watch": {"h-"},
+                "unschedule": {"H-", "E-", "M-", "W-"},
+                "unschedule_all": {"H0", "E0", "M0", "W0"},
+            }[mname]
+            missing = required - sig
+            ctx.check(
+                not missing,
+                RC,
+                f"{mname} achieves its effect [{p.sig()[:70]}]",
+                f"{mname}() returns normally without {sorted(missing)} (h = the handler, H = the watch's registry entry, E/M/W = emitter set / emitter map / watch set): the call is silently a no-op or leaves the collections describing different sets of watches",
+                mfi.loc,
+                {"effects": sorted(sig)},
+            )
             ctx.check(
                 sig in allowed,
                 RC,
@@ -163,6 +182,21 @@ def run(ctx) -> None:
                 mfi.loc,
                 {"effects": [(c, op, k) for c, op, k, _ in registry_effects(p.evs)]},
             )
+    # a not-started observer: stopping and joining an emitter that was never started must not raise
+    RJ2 = ctx.rule("C13/unstarted-emitters-tolerated", "unschedule()/unschedule_all() on a not-started observer: join() of a never-started emitter raises RuntimeError and must be absorbed, otherwise the call fails half-way and the collections diverge", floor=2)
+    for mname in ("unschedule", "unschedule_all"):
+        mfi = P.find_method(cls, mname)
+
+        class _JCfg(ThreadCfg):
+            def raises(self, kind, text, node, st):
+                if kind == "call" and (st.last_func or "").endswith(".join"):
+                    return ["RuntimeError"]
+                return ()
+
+        jp = Enumerator(_JCfg(P, no_inline={"is_alive", "dispatch", "queue_events", "BaseThread.start", "EventEmitter.stop"}, follow_attrs=False)).run(mfi, selfcls=cls)
+        esc = [p for p in jp if p.outcome[0] == "raise"]
+        ctx.check(not esc, RJ2, f"{mname} absorbs RuntimeError of join()", f"{mname}() lets the RuntimeError of joining a never-started emitter escape after having changed part of the registry", mfi.loc)
+
     # observation (not a violation): start()'s failure path
     sfi = P.find_method(cls, "start")
     if sfi:
@@ -224,6 +258,9 @@ VARIANTS = [
     dict(name="B drop emitter-map membership test", expect="fire", rule="C13/", edits=[(API, "            if watch not in self._emitter_for_watch:", "            if True:")]),
     dict(name="B unschedule forgets _watches", expect="fire", rule="C13/coherent-effects", edits=[(API, "            self._remove_emitter(emitter)\n            self._watches.remove(watch)", "            self._remove_emitter(emitter)")]),
     dict(name="B removing the last handler deletes the watch's registry entry", expect="fire", rule="C13/coherent-effects", edits=[(API, "            self._handlers[watch].remove(event_handler)", "            handlers = self._handlers[watch]\n            handlers.remove(event_handler)\n            if not handlers:\n                self._remove_handlers_for_watch(watch)")]),
+    dict(name="B schedule forgets to register the new emitter", expect="fire", rule="C13/coherent-effects", edits=[(API, "                self._add_emitter(emitter)\n", "                pass\n")]),
+    dict(name="B remove_handler_for_watch is a no-op", expect="fire", rule="C13/coherent-effects", edits=[(API, "            self._handlers[watch].remove(event_handler)", "            pass")]),
+    dict(name="B join of an unstarted emitter not tolerated", expect="fire", rule="C13/unstarted-emitters-tolerated", edits=[(API, "        emitter.stop()\n        with contextlib.suppress(RuntimeError):\n            emitter.join()\n\n    def _clear_emitters", "        emitter.stop()\n        emitter.join()\n\n    def _clear_emitters")]),
     dict(name="B hash from the path only", expect="fire", rule="C13/watch-identity", edits=[(API, "        return hash(self.key)\n\n    def __repr__", "        return hash(self.path)\n\n    def __repr__")]),
     dict(name="B key drops the filter", expect="fire", rule="C13/watch-identity", edits=[(API, "        return self.path, self.is_recursive, self.event_filter", "        return self.path, self.is_recursive")]),
     dict(name="E registration undone on failure", expect="silent", edits=[(API, "                emitter = self._emitter_class(self.event_queue, watch, timeout=self.timeout, event_filter=event_filter)\n                if self.is_alive():\n                    emitter.start()\n                self._add_emitter(emitter)", "                emitter = self._emitter_class(self.event_queue, watch, timeout=self.timeout, event_filter=event_filter)\n                self._add_emitter(emitter)\n                if self.is_alive():\n                    try:\n                        emitter.start()\n                    except Exception:\n                        del self._emitter_for_watch[emitter.watch]\n                        self._emitters.remove(emitter)\n                        raise")]),
